@@ -167,7 +167,9 @@ def sequences(tier):
 
 
 def build(seq, variant, hole_scope, hole_kind, bare_parity=1):
-    """variant 'meta': tags/links/properties everywhere; 'date': dates on title/headers, items without ZID.
+    """variant 'meta': tags/links/properties everywhere; 'date': dates on title/headers, items without ZID;
+    'echo': as 'meta', and the note right before every header also carries that header's own tags, link and property
+    (equal values in adjacent scopes: a note's metadata must not leak into, or mask, the section that follows it).
     hole_scope: index of the decorated scope that gets the hole (rotates over the page's scopes)
     hole_kind: 'tag' (an area name from TAG_MENU) | 'link' | 'key' (a property key from KEY_MENU) | None"""
     lines = []
@@ -203,6 +205,12 @@ def build(seq, variant, hole_scope, hole_kind, bare_parity=1):
     scopes.append(cm)
     lines.append(item())
     for j, lvl in enumerate(seq):
+        if variant == "echo":
+            e = deco("s%d" % j, None)
+            prev = scopes[-1]                      # the item that precedes this header
+            prev.deco.tags += e.tags
+            prev.deco.links += e.links
+            prev.deco.props += [e.props[0]]
         lines.append(Line("blank"))
         # in the date variant every second header carries a date
         h = Line("h%d" % lvl, deco("s%d" % j, "2024-0%d-1%d" % (2 + lvl, j) if j % 2 == 0 else None), text="S%d" % j, level=lvl)
@@ -231,6 +239,9 @@ def all_specs(tier, seed):
             hk = kinds[(si + seed) % 3] if variant == "meta" else "tag"
             out.append(Spec("c02-%s-%s-%s" % (name, variant, hk), build(seq, variant, hole_scope=si + seed + vi, hole_kind=hk,
                                                                            bare_parity=1 if si % 3 else 0)))
+    for si, seq in enumerate(sequences(tier)):
+        if seq:
+            out.append(Spec("c02-%s-echo" % "".join(map(str, seq)), build(seq, "echo", hole_scope=0, hole_kind=None)))
     return out
 
 
